@@ -133,8 +133,11 @@ def run_property(P, tier, seed, replay=None):
             if bad:
                 violations.append({"case": c, "profile": prof, "what": bad, "found_input": True, "impl": a[:2000]})
             if model_ans is not None:
-                compared += 1
                 cm, ci = P.canon_model(c, model_ans[i]), P.canon_impl(c, a, prof)
+                if cm is None:      # the model declares this case outside what it predicts
+                    cm = ci
+                else:
+                    compared += 1
                 if cm != ci:
                     mismatches.append({"case": c, "profile": prof, "model": cm[:2000], "impl": ci[:2000]})
             if prof == P.profiles[0] and P.nontrivial(c, a):
